@@ -641,6 +641,94 @@ func RunDetPure(c *core.Ctx) {
 	c.Stat("T.det map ranges", nRange)
 	c.Stat("L-gen functions", nFuncs)
 
+	// the protogen tree is shared by every file and feature of the invocation: nothing writes to it except the two
+	// confirmed renames of reserved names in the driver (field.GoName, oneof.GoName in rewriteMessageField)
+	for _, rel := range LGen {
+		p := c.Pkg(rel)
+		if p == nil {
+			continue
+		}
+		info := p.TypesInfo
+		isProtogen := func(t types.Type) bool {
+			for {
+				switch u := t.(type) {
+				case *types.Pointer:
+					t = u.Elem()
+					continue
+				case *types.Slice:
+					t = u.Elem()
+					continue
+				}
+				break
+			}
+			n, ok := t.(*types.Named)
+			return ok && n.Obj().Pkg() != nil && n.Obj().Pkg().Path() == "google.golang.org/protobuf/compiler/protogen" && n.Obj().Name() != "GeneratedFile" && n.Obj().Name() != "Plugin" && n.Obj().Name() != "Options"
+		}
+		nW := 0
+		eachFunc(p, func(fd *ast.FuncDecl) {
+			ast.Inspect(fd.Body, func(x ast.Node) bool {
+				var targets []ast.Expr
+				switch t := x.(type) {
+				case *ast.AssignStmt:
+					if t.Tok != token.DEFINE {
+						targets = t.Lhs
+					}
+				case *ast.IncDecStmt:
+					targets = []ast.Expr{t.X}
+				}
+				for _, l := range targets {
+					// a store into a field or element of a protogen value: x.F = …, x.F[i] = …, x.Fs[i].G = …
+					root := ast.Unparen(l)
+					hit := false
+					for {
+						switch r := root.(type) {
+						case *ast.SelectorExpr:
+							if tv := info.TypeOf(r.X); tv != nil && isProtogen(tv) {
+								hit = true
+							}
+							root = ast.Unparen(r.X)
+							continue
+						case *ast.IndexExpr:
+							// (an element store counts through the selector that yields the slice: x.Fields[i] = …; a local
+							// slice of descriptions is the function's own)
+							root = ast.Unparen(r.X)
+							continue
+						case *ast.StarExpr:
+							root = ast.Unparen(r.X)
+							continue
+						}
+						break
+					}
+					if !hit {
+						continue
+					}
+					nW++
+					con := fmt.Sprintf("%s.%s writes %s", rel, fnName(fd), clip(types.ExprString(l), 60))
+					ok := false
+					if rel == "cmd/protoc-gen-go-pulsar" && fnName(fd) == "rewriteMessageField" {
+						if sel, isSel := ast.Unparen(l).(*ast.SelectorExpr); isSel && sel.Sel.Name == "GoName" {
+							if id, isID := ast.Unparen(sel.X).(*ast.Ident); isID {
+								tn := ""
+								if pt, isP := info.TypeOf(id).(*types.Pointer); isP {
+									if n, isN := pt.Elem().(*types.Named); isN {
+										tn = n.Obj().Name()
+									}
+								}
+								ok = tn == "Field" || tn == "Oneof"
+							}
+						}
+					}
+					if ok {
+						c.Ok("T.pure", con, "confirmed: the Go name of a field / oneof that collides with a protoreflect.Message method gets a `_` suffix, before anything is generated", c.PosStr(p.Fset, l.Pos()), src)
+					} else {
+						c.Fail("T.pure", con, "generator code writes into the protogen description shared by all files and features of the invocation: what is generated for one file can then depend on what else was processed before", c.PosStr(p.Fset, l.Pos()), src)
+					}
+				}
+				return true
+			})
+		})
+		_ = nW
+	}
 	// GenerateHelpers implementations emit nothing (their call depends on which files were generated before)
 	for _, rel := range []string{"features/fastreflection", "features/protoc"} {
 		p := c.Pkg(rel)
